@@ -20,7 +20,7 @@ RULE = ("(1) exhaustive concatenations of syntax-significant tokens up to 4 (qui
         "raised its documented error or the tree was rendered below its structural minimum; distinct by input.")
 ASSUMPTIONS = ["options stay inside their documented domains (Bar.size > 0, ProgressBar.total >= 0, counts >= 0)",
                "a per-case watchdog (10 s) firing is inconclusive, not a violation"]
-REQUIRED = ["mon.highlighted_render", "mon.highlight_style_defined", "mon.color_parse", "mon.style_parse", "mon.get_style", "mon.markup", "mon.ansi_decode", "mon.text_ctor",
+REQUIRED = ["mon.other_renderable", "mon.highlighted_render", "mon.highlight_style_defined", "mon.color_parse", "mon.style_parse", "mon.get_style", "mon.markup", "mon.ansi_decode", "mon.text_ctor",
             "mon.print_no_markup", "mon.tree_render", "mon.tree_measure"]
 MIN_NONTRIVIAL = {"quick": 5000, "thorough": 200000}
 
@@ -320,6 +320,76 @@ def wl_highlighted(ctx, rng, case_no):
     ctx.case_done(("hl", s, W, justify, overflow, how), len(toks) >= 3, wit)
 
 
+_tb_dir = [None]
+
+
+def wl_other_renderables(ctx, rng, case_no):
+    """The built-in renderables that are not layout containers: Traceback (frames from files of any name - scripts
+    without a suffix, plug-in suffixes no lexer knows, missing files), Syntax (any lexer name), Pretty - rendered
+    and measured at widths 1..200."""
+    import os
+    import shutil
+    import sys
+    import tempfile
+    from rich.measure import Measurement
+    from rich.pretty import Pretty
+    from rich.syntax import Syntax
+    from rich.traceback import Traceback
+    kind = rng.choice(["traceback", "traceback", "syntax", "pretty"])
+    wit = {"kind": kind}
+    if kind == "traceback":
+        if _tb_dir[0] is None:
+            _tb_dir[0] = tempfile.mkdtemp(prefix="rv-c14-")
+            import atexit
+            atexit.register(shutil.rmtree, _tb_dir[0], True)
+        name = rng.choice(["plugin", "script", "x.py", "x.pyx", "x.ipy", "x.unknownsuffix", "x.txt", "x.json", "Makefile",
+                           "x.", ".hidden", "漢字.py", "with space.plug"])
+        path = os.path.join(_tb_dir[0], "%d_%d_%s" % (os.getpid(), case_no % 5, name))
+        src = "def f(x):\n    y = [x] * 3\n    return y[%d]\n\ndef g(x):\n\treturn f(x)\n" % rng.choice([7, -9])
+        if rng.random() < 0.8:
+            with open(path, "w", encoding="utf-8") as f:
+                f.write(src)
+        elif os.path.exists(path):
+            os.unlink(path)          # the file of the frame does not exist (any more)
+        ns = {}
+        exec(compile(src, path, "exec"), ns)
+        try:
+            ns["g"](1)
+        except Exception:
+            et, ev, tb = sys.exc_info()
+        wit.update(file_name=name, show_locals=rng.random() < 0.3)
+        make = lambda: Traceback.from_exception(et, ev, tb, width=rng.choice([None, 100, 40]), extra_lines=rng.choice([0, 3]),
+                                                show_locals=wit["show_locals"], word_wrap=rng.random() < 0.3)
+    elif kind == "syntax":
+        lexer = rng.choice(["python", "nosuchlexer", "", "text", "json", "c++", "PYTHON", "html+jinja", "default", " "])
+        code = S.free_string(rng, rng.choice([0, 10, 80]), S.pick_weights(rng), space=0.15, newline=0.1, tab=0.05)
+        wit.update(lexer=lexer, code=code)
+        opts = {"line_numbers": rng.random() < 0.5, "word_wrap": rng.random() < 0.3, "indent_guides": rng.random() < 0.3,
+                "theme": rng.choice(["monokai", "ansi_dark", "default"])}
+        make = lambda: Syntax(code, lexer, **opts)
+    else:
+        value = rng.choice([[1, 2, {"a": (None, 3.5)}], {"k": "v" * 50}, "s", 12, [], {}, (1,), set(), range(3), object])
+        wit.update(value=repr(value))
+        make = lambda: Pretty(value, indent_guides=rng.random() < 0.3, max_length=rng.choice([None, 1]),
+                              expand_all=rng.random() < 0.2)
+    signal.signal(signal.SIGALRM, _alarm)
+    for W in sorted({1, 2, 3, 5, 10, 40, 80, 200, rng.randint(1, 200)}):
+        console = consoles.layout_console(W, legacy=rng.random() < 0.1, ascii_only=rng.random() < 0.1)
+        signal.setitimer(signal.ITIMER_REAL, 10)
+        try:
+            def run():
+                for _ in console.render(make(), console.options):
+                    pass
+                Measurement.get(console, make(), W)
+            guarded(ctx, "other_renderable", (), run, dict(wit, width=W))
+        except Timeout:
+            ctx.mark_inconclusive("watchdog fired rendering %s at width %d" % (kind, W))
+        finally:
+            signal.setitimer(signal.ITIMER_REAL, 0)
+    ctx.hist("other_renderable_kind", kind + (":" + wit.get("file_name", "") if kind == "traceback" else ""))
+    ctx.case_done(("other", repr(wit)), True, wit)
+
+
 def wl_highlight_styles_defined(ctx):
     """Exhaustive and cheap: every style name the built-in highlighters can attach (each named group of each
     pattern, prefixed with the highlighter's base style) resolves on a default console."""
@@ -350,7 +420,8 @@ def workloads(tier):
             WL("unicode", wl_unicode, 600000 if big else 30000),
             WL("trees", wl_trees, 200000 if big else 6000),
             WL("highlight_styles_defined", wl_highlight_styles_defined, kind="custom"),
-            WL("highlighted", wl_highlighted, 300000 if big else 12000)]
+            WL("highlighted", wl_highlighted, 300000 if big else 12000),
+            WL("other_renderables", wl_other_renderables, 60000 if big else 2500)]
 
 
 LEVEL_TEXT = ("Feeds the real parsers, decoder, Text constructor and Console.print every concatenation of "
